@@ -280,6 +280,7 @@ def _do_noise(fr, spy, op, c, V, tag, empty_state):
         return 'raised:' + name, info
     reqs = spy.take()
     info['ran'] = True
+    info['returned'] = noise            # the very object the library returned (kept uncopied by the history check)
     if expect_refusal:
         V('unequal_lengths_accepted', '%s: share_index=True with table lengths %s did not raise; requests %r'
           % (tag, op['lens'], reqs), site=site)
@@ -586,7 +587,7 @@ def _request_ops(tier):
         ops.append(dict(api='add_noise', noise_type='chi2', x_mean=xm, x_std=7.0, x_min=0.5 * xm))   # ignored args
     for nt in ('gaussian', 'normal'):
         for xm, xs in ((0.0, 1.0), (10.0, 2.0), (-5.0, 0.5), (1e6, 3e4)):
-            for rel in (None, -1.0, 0.0, 1.0, -40.0):
+            for rel in (None, -1.0, 0.0, 1.0, -4.75, -40.0):
                 xmin = None if rel is None else xm + rel * xs
                 if xmin is not None and xmin == 0.0 and rel != 0.0:
                     continue
@@ -655,6 +656,7 @@ def _run_history(c, seq, checked, V, acc):
     spy.take()
     state = 'noisy' if data is not None else 'empty'
     pal = c['palette']
+    held = []        # arrays returned by earlier noise additions, held WITHOUT copying (as a caller would) + private copies
     for j, name in enumerate(seq):
         prefix = tuple(seq[:j + 1])
         fresh = prefix not in checked
@@ -692,6 +694,14 @@ def _run_history(c, seq, checked, V, acc):
                     acc['clipped_checked'] += 1
             if info['ran']:
                 state = 'noisy'
+                r = info.get('returned')
+                if isinstance(r, np.ndarray):
+                    for hj, (obj, cp) in enumerate(held):
+                        if fresh and (obj.shape != cp.shape or not np.array_equal(obj, cp)):
+                            V('returned_array_overwritten', '%s: the noise array returned by an earlier addition (step %d) was modified by this '
+                              'addition (the returned array is no longer what was added then)' % (tag, hj + 1), site='Frame.add_noise')
+                            break
+                    held.append((r, np.array(r, copy=True)))
         if fresh:
             snr = _snr_checks(fr, V, tag)
             checked.add(prefix)
